@@ -359,8 +359,13 @@ inductive OutCol where
   | str (inds : List Nat) (vals : List Int)
   deriving Repr, DecidableEq, Inhabited
 
-/-- `session.apply_index(old_sorted_index, old_f)`, `session.apply_index(new_sorted_index, new_f)` -/
-def applyIndex (osi nsi : List Nat) : Col → Except Err SCol
+/-- the arrays the kernels see for a field: numeric data as is, an indexed string field as (indices, values) -/
+def Col.enc : Col → SCol
+  | .num o n => .num o n
+  | .str o n => .str (encode o).1 (encode o).2 (encode n).1 (encode n).2
+
+/-- both columns of a field permuted: `old_f[old_sorted_index]`, `new_f[new_sorted_index]` -/
+def gatherCol (osi nsi : List Nat) : Col → Except Err Col
   | .num o n =>
     match gatherE o osi, gatherE n nsi with
     | .ok o', .ok n' => .ok (.num o' n')
@@ -368,9 +373,15 @@ def applyIndex (osi nsi : List Nat) : Col → Except Err SCol
     | _, .error e => .error e
   | .str o n =>
     match gatherE o osi, gatherE n nsi with
-    | .ok o', .ok n' => .ok (.str (encode o').1 (encode o').2 (encode n').1 (encode n').2)
+    | .ok o', .ok n' => .ok (.str o' n')
     | .error e, _ => .error e
     | _, .error e => .error e
+
+/-- `session.apply_index(old_sorted_index, old_f)`, `session.apply_index(new_sorted_index, new_f)` -/
+def applyIndex (osi nsi : List Nat) (c : Col) : Except Err SCol :=
+  match gatherCol osi nsi c with
+  | .ok c' => .ok c'.enc
+  | .error e => .error e
 
 def applyIndexAll (osi nsi : List Nat) : List Col → Except Err (List SCol)
   | [] => .ok []
